@@ -24,6 +24,7 @@ import (
 
 	"github.com/fabiolb/fabio/config"
 	"github.com/fabiolb/fabio/registry/consul"
+	"github.com/fabiolb/fabio/route"
 	"github.com/hashicorp/consul/api"
 	"verif/harness/hx"
 	"verif/harness/rt"
@@ -99,7 +100,7 @@ const kvPath = "/fabio/config"
 // oracleFor evaluates the route model's external parameters (url.Parse+String, glob.Compile) on every
 // string a service route or an operator command of the final state can hand to them. It goes through
 // rt.Oracle so that it follows whatever the shared route model needs.
-func oracleFor(s Snapshot) map[string]interface{} {
+func oracleFor(s Snapshot, prefix string) map[string]interface{} {
 	defs := append([]rt.Def{}, s.KV...)
 	for _, i := range s.Catalog {
 		a := i.SAddr
@@ -122,7 +123,51 @@ func oracleFor(s Snapshot) map[string]interface{} {
 			}
 		}
 	}
-	return rt.Oracle(defs)
+	o := rt.Oracle(defs)
+	// the composed Lean pipeline (C14 build + Parse + Route) also calls strconv.ParseFloat and evaluates
+	// url.Parse / glob.Compile on every token it can meet: the routes as parseURLPrefixTag returns them, the
+	// destinations, and every token of the manual text
+	urls, globs := o["url"].(map[string]interface{}), o["glob"].(map[string]interface{})
+	pf := map[string]interface{}{}
+	add := func(tok string) {
+		if f, err := strconv.ParseFloat(tok, 64); err == nil {
+			pf[tok] = route.VerifRat(f)
+		} else {
+			pf[tok] = nil
+		}
+		if _, ok := urls[tok]; !ok {
+			if n, ok := route.VerifNormURL(tok); ok {
+				urls[tok] = n
+			} else {
+				urls[tok] = nil
+			}
+		}
+		h, p := route.VerifHostpath(tok)
+		h = strings.ToLower(h)
+		globs[p] = route.VerifGlobOK(p)
+		globs[h] = route.VerifGlobOK(h)
+	}
+	for _, d := range defs {
+		add(d.Src)
+		add(d.Dst)
+	}
+	for _, i := range s.Catalog {
+		for _, t := range i.Tags {
+			if r, opts, ok := consul.VerifC14ParseTag(t, prefix, map[string]string{"DC": "dc1"}); ok {
+				add(r)
+				for _, f := range strings.Fields(opts) {
+					if strings.HasPrefix(f, "weight=") {
+						add(f[len("weight="):])
+					}
+				}
+			}
+		}
+	}
+	for _, tok := range strings.Fields(s.KVText) {
+		add(tok)
+	}
+	o["pf"] = pf
+	return o
 }
 
 func runPipeline(raw json.RawMessage) (interface{}, error) {
@@ -196,7 +241,7 @@ func runPipeline(raw json.RawMessage) (interface{}, error) {
 		return nil, err
 	}
 	snap := reg.snapshot()
-	return pipeOut{Table: table, Registry: snap, Oracle: oracleFor(snap)}, nil
+	return pipeOut{Table: table, Registry: snap, Oracle: oracleFor(snap, in.Cfg.Prefix)}, nil
 }
 
 // ---- generators ----
